@@ -7,6 +7,13 @@ TRUST = ("trusted base: go/types + go/ssa (x/tools v0.50.0), goyacc v0.29.0's LA
          "interface calls that leave the module (Entry, plugins) are opaque")
 
 CHECKS = {
+    "C13": dict(
+        cat="other",
+        text=("Decides the structural pieces of type narrowing and default inheritance: the restriction-kind table equals RFC 6020 section 9 per base type and validateRestrictions rejects kinds outside the row; getDefault is 'own default if given, else the base type's' and BuildBaseType hands the typedef's default inward (nearest definition wins); the four range-boundary comparator implementations agree on their operator and operand order (< , > , lower+1 == higher; false for decimal64); the rejecting comparisons of validateRangeBoundaries, createRangeBdry and getLength — rendered independently of local names, by the provenance of each operand — are the expected ones, and the subset-of-a-base-part test of getLength reads the resolved bounds only; validateDefault is called unconditionally before the single return of makeBuiltinType and refineType and uses the type's own Validate."),
+        ref="DESIGN.md §4 C13",
+        technique="table comparison with RFC 6020 section 9, sibling-implementation agreement, provenance-normalised guard-condition extraction (which comparison on which operands guards an error exit), must-call rule",
+        note="Not decided: subset checking on concrete multi-part ranges (value level), pattern semantics. " + TRUST,
+    ),
     "C12": dict(
         cat="other",
         text=("Decides structural steps of uses/refine/augment expansion, not schema equivalence: no sibling-uniqueness error of the schema tree's add* methods is discarded at any call site; a node's defining tree has the constructor as its only writer, Clone keeps it, sets the using tree from its argument and re-homes every descendant, the namespace/module accessors consult the using tree first, and the module handed to Clone is chosen from the using side, never by looking at the grouping; inheritCommonProperties copies exactly when/if-feature/status and every node applyUsesToNode clones or applyAugment moves passes through it first; the refinable-statement and augmentable-target sets equal RFC 6020 7.12.2 / 7.15."),
